@@ -570,6 +570,11 @@ def rmi_codec(ctx, rule):
     rz = q.calls_to(dec, "BitVec::resize")
     ok = len(rz) == 1 and q.shape(q.arg_expr(dec, rz[0][1], 1)) == "Mul(6,str::len(arg1))"
     ctx.check(ok, rule, dec.path, "resize:6*len", "the reader sizes the bit vector to 6 bits per digit")
+    cl = [bi for bi, t in q.calls_to(dec, "BitVec::clear") if q.shape(q.arg_expr(dec, t, 0)) == "arg2"]
+    rets = dec.return_blocks()
+    fresh = len(cl) == 1 and len(rz) == 1 and dec.dominates(cl[0], rz[0][0]) and all(dec.dominates(rz[0][0], r) for r in rets) and q.shape(q.arg_expr(dec, rz[0][1], 2)) == "0"
+    ctx.check(fresh, rule, dec.path, "fresh-per-line",
+              "the reused bit vector is cleared and unconditionally re-filled with zero bits for every line (no flag of an earlier line can survive into a later one)")
     # trailing zero trimming in the writer: bits[..last + 1]
     idx = [q.shape(enc.expr_of_call(t)) for bi, t in q.calls_to(enc, "Index::index")]
     ctx.check(any(s == "BitView::view_bits(arg2)[RangeTo{end:Add(1,var:usize)}]" for s in idx), rule, enc.path, "trim", "trailing zero bits are trimmed after the last set bit")
